@@ -647,8 +647,7 @@ theorem keysOk_facts {a : Ast} (h : keysOk a = true) :
 
 theorem plansFor_of_supported {a : Ast} {m : Module} (hs : Supported a = true) (hg : generateModule a = .ok m) :
     PlansFor a m.plans := by
-  simp only [Supported, Bool.and_eq_true] at hs
-  obtain ⟨⟨hkeys, _⟩, _⟩ := hs
+  obtain ⟨hkeys, _, _, _, _⟩ := Supported.facts hs
   obtain ⟨hkn, hsafe, _⟩ := keysOk_facts hkeys
   obtain ⟨_, _, h2, _⟩ := generateModule_ok hg
   have hfind := find_impl_of_types a a.types m.fromRefMut h2 hkn
@@ -679,8 +678,7 @@ theorem plansFor_of_supported {a : Ast} {m : Module} (hs : Supported a = true) (
 theorem supported_plans {a : Ast} {m : Module} (hs : Supported a = true) (hg : generateModule a = .ok m) :
     m.plans.Ok = true ∧ m.plans.SizeExact' = true := by
   have hP := plansFor_of_supported hs hg
-  simp only [Supported, Bool.and_eq_true] at hs
-  obtain ⟨⟨hkeys, htypes⟩, _⟩ := hs
+  obtain ⟨hkeys, htypes, _, _, _⟩ := Supported.facts hs
   obtain ⟨hkn, _, hsorted⟩ := keysOk_facts hkeys
   obtain ⟨_, _, h2, h3⟩ := generateModule_ok hg
   -- every impl comes from a declaration of the index, whose size impl is the one `findSize` returns
